@@ -120,7 +120,7 @@ Lemma verified_interval_checkers_sound_all :
     Rabs (sigma_of_species (to_R l) (Q2R A) (Q2R g) - gc) <= / 100000000 * Rabs gc) /\
   (forall l A g psi mu eps tk, check_ddl_loose l A g psi mu eps tk = true ->
     let gc := gouy_chapman (Q2R eps) (Q2R tk) (Q2R mu) (Q2R psi) in
-    Rabs (sigma_of_species (to_R l) (Q2R A) (Q2R g) - gc) <= / 1000000 * Rabs gc) /\
+    Rabs (sigma_of_species (to_R l) (Q2R A) (Q2R g) - gc) <= / 10000 * Rabs gc) /\
   (forall l A g ions psi eps tk, check_grahame l A g ions psi eps tk = true ->
     let gr := grahame (Q2R eps) (Q2R tk) (to_R (balancing_ion ions :: ions)) (Q2R psi) in
     Rabs (sigma_of_species (to_R l) (Q2R A) (Q2R g) - gr) <= / 100000000 * Rabs gr) /\
